@@ -23,9 +23,11 @@ fn try_run_builtin_in_subprocess(
     sh: &mut Shell,
     cl: &CommandLine,
     idx_cmd: usize,
-    capture: bool,
+    _capture: bool,
 ) -> Option<i32> {
-    if let Some(cr) = try_run_builtin(sh, cl, idx_cmd, capture) {
+    // in a forked stage the builtin writes to its own descriptors: when the
+    // pipeline is captured, descriptor 1 of its last stage is the capture pipe
+    if let Some(cr) = try_run_builtin(sh, cl, idx_cmd, false) {
         return Some(cr.status);
     }
     None
